@@ -54,10 +54,14 @@ def check_case(case) -> Result:
     base = model.project(a0)
     m0 = pt.mass(s, charge=0)
 
+    m0c = pt.mass(s) if pep['adducts'] else None
+
     def same_mass(out_s, op):
         m = pt.mass(out_s, charge=0)
         if abs(m - m0) > 1e-6:
             r.fail('total mass is unchanged', f'C11/{op}/mass-changed', result=out_s, before=m0, after=m, **ctx)
+        elif m0c is not None and abs(pt.mass(out_s) - m0c) > 1e-6:
+            r.fail('total mass is unchanged', f'C11/{op}/mass-changed/with-charge-carriers', result=out_s, before=m0c, after=pt.mass(out_s), **ctx)
 
     # ---- reverse ----
     for swap in (False, True):
@@ -80,7 +84,8 @@ def check_case(case) -> Result:
             r.fail('in-place equals out-of-place', 'C11/reverse/inplace-differs', swap_terms=swap, **ctx)
     try:
         twice = pt.parse(pt.reverse(pt.reverse(s)))
-    except ValueError:
+    except ValueError as e:
+        r.fail('reverse twice is the identity', 'C11/reverse/twice-does-not-parse', error=str(e)[:100], **ctx)
         twice = None
     if twice is not None and model.project(twice) != base:
         r.fail('reverse twice is the identity', 'C11/reverse/twice-not-identity', fields=model.diff_fields(base, model.project(twice)),
@@ -104,17 +109,37 @@ def check_case(case) -> Result:
         for f in ('nterm', 'cterm', 'static', 'isotope', 'labile', 'unknown', 'charge', 'adducts'):
             if obs[f] != base[f]:
                 r.fail('shift: global and terminal annotations stay in place', f'C11/shift/{f}-changed', k=k, **ctx)
+        if pt.shift(s, k) != out.serialize():
+            r.fail('string and annotation forms agree', 'C11/shift/string-vs-annotation', k=k, string=pt.shift(s, k), annotation=out.serialize(), **ctx)
         wraps = any(((s_ - keff) % n) + (e_ - s_) > n for s_, e_, _a, _m in pep['intervals']) if keff else False
-        if wraps:
-            # an interval that would wrap around the end cannot be written in the linear notation; the library stores a
-            # swapped / shortened interval (known finding).  The serialized form may not even parse.
+        # an interval modification belongs to its residues: the interval lands where they land
+        q['intervals'] = sorted([(s_ - keff) % n, (s_ - keff) % n + (e_ - s_), a_, m_] for s_, e_, a_, m_ in pep['intervals'])
+        exp_iv = model.sorted_proj(model.expected(q))['intervals']
+        got_iv = model.sorted_proj(obs)['intervals']
+        if not wraps:
+            if got_iv != exp_iv:
+                r.fail('shift: every residue keeps its modifications (an interval moves with its residues)', 'C11/shift/interval-not-moved-with-its-residues',
+                       k=k, expected=exp_iv, got=got_iv, result=out.serialize(), **ctx)
+            same_mass(out.serialize(), 'shift')
+        else:
+            # an interval that would wrap around the end cannot be written in the linear notation; the library stores the two
+            # rotated bounds in ascending order (known finding): the modifications stay, the residues covered change
+            q['intervals'] = sorted(sorted([(s_ - keff) % n, (e_ - keff) % n]) + [a_, m_] if ((s_ - keff) % n) + (e_ - s_) > n else
+                                    [(s_ - keff) % n, (s_ - keff) % n + (e_ - s_), a_, m_] for s_, e_, a_, m_ in pep['intervals'])
+            known_iv = model.sorted_proj(model.expected(q))['intervals']
+            sig = 'C11/shift/interval-wraps-around-not-representable' if got_iv == known_iv else 'C11/shift/interval-wrong-after-wrapping-shift'
             try:
                 pt.parse(out.serialize())
+                parses = True
             except ValueError as e:
-                r.fail('shift by k then -k is the identity', 'C11/shift/interval-wraps-around-not-representable', k=k,
+                parses = False
+                r.fail('shift: the result is a valid annotation', sig if sig.endswith('representable') else 'C11/shift/result-does-not-parse', k=k,
                        result=out.serialize(), error=str(e)[:80], **ctx)
-        else:
-            same_mass(out.serialize(), 'shift')
+            if sig.endswith('wrong-after-wrapping-shift'):
+                r.fail('shift: every residue keeps its modifications', sig, k=k, got=got_iv, stored_by_the_recorded_finding=known_iv,
+                       result=out.serialize(), **ctx)
+            if parses:
+                same_mass(out.serialize(), 'shift')
         back = model.project(out.shift(-k))
         if back != base:
             fields = model.diff_fields(base, back)
@@ -157,8 +182,8 @@ def check_case(case) -> Result:
         same_mass(out.serialize(), 'shuffle')
         b = a0.copy()
         b.shuffle(seed=seed, inplace=True)
-        if _sub(model.project(b), CMP_NO_IV) != _sub(obs, CMP_NO_IV):
-            r.fail('in-place equals out-of-place', 'C11/shuffle/inplace-differs', seed=seed, **ctx)
+        if model.project(b) != obs:
+            r.fail('in-place equals out-of-place', 'C11/shuffle/inplace-differs', seed=seed, fields=model.diff_fields(obs, model.project(b)), **ctx)
     out = a0.sort_residues()
     obs = model.project(out)
     if obs['seq'] != ''.join(sorted(pep['seq'])) or _res_multiset(obs, True) != ms0:
@@ -171,8 +196,8 @@ def check_case(case) -> Result:
     same_mass(out.serialize(), 'sort')
     b = a0.copy()
     b.sort_residues(inplace=True)
-    if _sub(model.project(b), CMP_NO_IV) != _sub(obs, CMP_NO_IV):
-        r.fail('in-place equals out-of-place', 'C11/sort/inplace-differs', **ctx)
+    if model.project(b) != obs:
+        r.fail('in-place equals out-of-place', 'C11/sort/inplace-differs', fields=model.diff_fields(obs, model.project(b)), **ctx)
 
     # ---- slice ----
     for (i, j) in case['slices']:
@@ -200,8 +225,8 @@ def check_case(case) -> Result:
             r.fail('span_to_sequence is the serialized slice', 'C11/slice/span_to_sequence-differs', bounds=[i, j], **ctx)
         b = a0.copy()
         b.slice(i, j, inplace=True)
-        if _sub(model.project(b), CMP_SLICE) != _sub(obs, CMP_SLICE):
-            fields = [f for f in CMP_SLICE if model.project(b)[f] != obs[f]]
+        if model.project(b) != obs:
+            fields = model.diff_fields(obs, model.project(b))
             r.fail('in-place equals out-of-place', 'C11/slice/inplace-differs/' + '+'.join(fields), bounds=[i, j],
                    inplace=model.project(b), out_of_place=obs, **ctx)
         if j > i:
@@ -273,16 +298,20 @@ def check_case(case) -> Result:
                 break
 
     # ---- split ----
-    if not pep['intervals'] and not pep['unknown']:
+    if all(e_ - s_ == 1 for s_, e_, _a, _m in pep['intervals']):
         pieces = pt.split(s)
         if len(pieces) != n:
             r.fail('split gives one piece per residue', 'C11/split/count', got=len(pieces), **ctx)
         else:
             internal = {i: ms for i, ms in pep['internal']}
+            ivs = {s_: [a_, m_] for s_, _e, a_, m_ in pep['intervals']}
+            labile_seen = []
             for k, piece in enumerate(pieces):
                 q = model.empty_pep(pep['seq'][k])
                 if k in internal:
                     q['internal'] = [[0, internal[k]]]
+                if k in ivs:
+                    q['intervals'] = [[0, 1] + ivs[k]]
                 if k == 0:
                     q['nterm'] = pep['nterm']
                 if k == n - 1:
@@ -290,15 +319,29 @@ def check_case(case) -> Result:
                 q['static'], q['isotope'] = model.m_slice(pep, k, k + 1)['static'], pep['isotope']
                 exp = model.expected(q)
                 obs = model.project(pt.parse(piece))
-                cmp = ('seq', 'internal', 'nterm', 'cterm', 'static', 'isotope')
+                labile_seen += list(obs['labile'] or [])
+                cmp = ('seq', 'internal', 'intervals', 'nterm', 'cterm', 'static', 'isotope')
                 if _sub(obs, cmp) != _sub(exp, cmp):
                     fields = [f for f in cmp if obs[f] != exp[f]]
                     r.fail('splitting into residues and concatenating reproduces the peptide', 'C11/split/' + '+'.join(fields), index=k,
                            piece=piece, **ctx)
                     break
-            if not any(pep[k] for k in ('labile', 'static', 'isotope', 'unknown', 'nterm', 'cterm', 'internal')) and pep['charge'] is None:
-                if ''.join(pieces) != s:
-                    r.fail('for plain sequences the pieces concatenate to the input', 'C11/split/plain-concat', **ctx)
+            else:
+                # the labile modifications of the peptide are on the pieces exactly once
+                if sorted(map(repr, labile_seen)) != sorted(map(repr, base['labile'] or [])):
+                    r.fail('splitting into residues and concatenating reproduces the peptide', 'C11/split/labile', pieces=pieces[:6],
+                           expected=base['labile'], got=labile_seen, **ctx)
+            if not any(pep[k] for k in ('static', 'isotope', 'unknown')) and pep['charge'] is None:
+                # residue, interval, terminal and labile modifications are written next to their residue: the pieces concatenate
+                # to a string that reads as the peptide
+                try:
+                    joined = model.project(pt.parse(''.join(pieces)))
+                except ValueError as e:
+                    joined = None
+                    r.fail('the pieces concatenate to the peptide', 'C11/split/concatenation-does-not-parse', pieces=pieces[:8], error=str(e)[:100], **ctx)
+                if joined is not None and joined != base:
+                    r.fail('the pieces concatenate to the peptide', 'C11/split/concatenation-differs/' + '+'.join(model.diff_fields(base, joined)),
+                           pieces=pieces[:8], **ctx)
     return r
 
 
@@ -312,8 +355,6 @@ def strategy():
     def strat(draw):
         pep = draw(pm)
         n = len(pep['seq'])
-        if pep['charge'] is not None:
-            pep['adducts'] = None
         # intervals touching the ends / adjacent, by construction, in a third of the cases
         if n >= 2 and draw(st.integers(0, 2)) == 1:
             c = draw(st.integers(1, n - 1))
